@@ -204,6 +204,7 @@ func (b *BlockResult) TxResults() []*abci.ExecTxResult {
 
 // Chain drives one real application instance through the ABCI interface.
 type Chain struct {
+	InitBaseFee *big.Int // base fee in force right after InitChain, before the first block (nil if unreadable)
 	Cfg      Config
 	App      *chainapp.Evermint
 	Enc      params.EncodingConfig
@@ -359,6 +360,11 @@ func (c *Chain) Init() {
 		}
 	}
 	c.LastHash = res.AppHash
+	// the base fee InitChain left in force for the first block (read from the not yet committed genesis state)
+	func() {
+		defer func() { _ = recover() }()
+		c.InitBaseFee = c.App.FeeMarketKeeper.GetBaseFee(c.App.GetContextForFinalizeBlock(nil)).BigInt()
+	}()
 	// InitChain state only becomes queryable after the first commit: run an empty block 1.
 	if !c.Cfg.NoFirstBlock {
 		if br := c.NextBlock(nil, nil); br.Err != nil {
